@@ -69,21 +69,24 @@ def strategy(tier):
     poke = st.one_of(st.none(), st.tuples(st.sampled_from(["P1", "P2", "P3", "BL", "LI", "Waterfall", "eco"]), st.integers(0, 3)).map(list))
     step = st.tuples(poke, cmd).map(list)
     wire = st.one_of(st.just([]), st.lists(st.integers(0, len(WIRE_LABELS) - 1), min_size=1, max_size=8))
-    return st.builds(lambda s, w, h: {"snapshot": s, "wire": w, "history": h},
-                     st.integers(0, n - 1), wire, st.lists(step, min_size=1, max_size=10))
+    return st.builds(lambda s, w, h, k: {"snapshot": s, "wire": w, "history": h, "stack": k},
+                     st.integers(0, n - 1), wire, st.lists(step, min_size=1, max_size=10), st.sampled_from(["async", "async", "blocking"]))
 
 
 # ------------------------------------------------------------------ the model spa
 
 
-class ModelSpa(vworld.SimPeer):
-    def __init__(self, world, sim, pair, addr):
-        super().__init__(world, sim, addr)
+class SpaModel:
+    """the reference spa: block + command parser + reactions; transport-agnostic (returns the datagrams to send)"""
+
+    def __init__(self, sim, pair):
+        self.sim = sim
         self.pair = pair
         self.commands = []     # dicts of every SPACK / SETWC that arrived
         self.wc_mode = 1
         self.client = None
         self.client_id = None
+        self.now = lambda: 0.0
 
     # -- block helpers
     @property
@@ -100,9 +103,12 @@ class ModelSpa(vworld.SimPeer):
         self._store(pos, int(word).to_bytes(w, "big"))
         return range(pos, pos + w)
 
+    def _ud(self, device):
+        return next((u for u in self.pair.log_inst.user_demand_keys if u.upper() == ("Ud" + device).upper()), None)
+
     def mirror_state(self, device):
         """state item follows the user demand"""
-        ud = next((u for u in self.pair.log_inst.user_demand_keys if u.upper() == ("Ud" + device).upper()), None)
+        ud = self._ud(device)
         if ud is None or device not in self.pair.items or device == ud:
             return []
         dem = self.pair.items[ud].decode(self.block)
@@ -113,7 +119,7 @@ class ModelSpa(vworld.SimPeer):
         return []
 
     def toggle(self, device):
-        ud = next((u for u in self.pair.log_inst.user_demand_keys if u.upper() == ("Ud" + device).upper()), None)
+        ud = self._ud(device)
         if ud is None:
             return []
         it = self.pair.items[ud]
@@ -124,37 +130,37 @@ class ModelSpa(vworld.SimPeer):
         return touched + self.mirror_state(device)
 
     def echo(self, touched):
+        """the STATP datagram announcing the touched bytes (or nothing)"""
         words = sorted({min(p, 1022) for p in touched})
         if not words or self.client is None:
-            return
+            return []
         body = R.partial_update([(p, self.block[p:p + 2]) for p in words])
-        self.world.deliver_from_spa(self, [(R.frame(self.sim.vp_identifier, self.client_id, body), self.client)])
+        return [(R.frame(self.sim.vp_identifier, self.client_id, body), self.client)]
 
     def poke(self, what, k):
-        """spa-side state change (someone pressed a button on the tub)"""
+        """spa-side state change (someone pressed a button on the tub); returns the datagrams to push"""
         touched = []
         if what == "eco":
             if "EconActive" in self.pair.items:
                 touched = list(self.set_item("EconActive", k % 2))
         else:
-            ud = next((u for u in self.pair.log_inst.user_demand_keys if u.upper() == ("Ud" + what).upper()), None)
+            ud = self._ud(what)
             if ud is not None and self.pair.items[ud].labels:
                 labs = self.pair.items[ud].labels
                 touched = list(self.set_item(ud, k % len(labs))) + self.mirror_state(what)
-        self.echo(touched)
+        return self.echo(touched)
 
-    # -- datagrams
-    def receive(self, data, client_addr):
+    # -- datagrams: returns the list of (datagram, destination) replies, or None when the bundled simulator should answer
+    def handle(self, data, client_addr):
         parts = R.unframe(data)
         if parts is None:
-            return super().receive(data, client_addr)
+            return None
         src, dst, content = parts
-        self.client, self.client_id = client_addr, src
+        self.client, self.client_id = (client_addr[0], client_addr[1]), src
         verb = content[:5]
-        reply = lambda body: self.world.deliver_from_spa(self, [(R.frame(self.sim.vp_identifier, src, body), client_addr)])  # noqa: E731
+        framed = lambda body: (R.frame(self.sim.vp_identifier, src, body), self.client)  # noqa: E731
         if verb == b"SPACK":
-            self.received.append((self.world.clock.t, data, client_addr))
-            cmd = {"t": self.world.clock.t, "verb": "SPACK", "raw": content, "seq": content[5], "pack_type": content[6],
+            cmd = {"t": self.now(), "verb": "SPACK", "raw": content, "seq": content[5], "pack_type": content[6],
                    "length": content[7], "command": content[8], "dst": dst, "src": src}
             touched = []
             if content[8] == 57 and content[7] == 2 and len(content) == 10:
@@ -175,23 +181,42 @@ class ModelSpa(vworld.SimPeer):
             else:
                 cmd.update(kind="malformed")
             self.commands.append(cmd)
-            reply(R.pack_response())
-            self.echo(touched)
-            return
+            return [framed(R.pack_response())] + self.echo(touched)
         if verb == b"SETWC":
-            self.received.append((self.world.clock.t, data, client_addr))
-            cmd = {"t": self.world.clock.t, "verb": "SETWC", "raw": content, "kind": "wc" if len(content) == 7 else "malformed",
+            cmd = {"t": self.now(), "verb": "SETWC", "raw": content, "kind": "wc" if len(content) == 7 else "malformed",
                    "seq": content[5] if len(content) > 5 else None, "mode": content[6] if len(content) > 6 else None, "dst": dst, "src": src}
             self.commands.append(cmd)
             if cmd["kind"] == "wc":
                 self.wc_mode = content[6]
-            reply(R.watercare_set_response())
-            return
+            return [framed(R.watercare_set_response())]
         if verb == b"GETWC":
-            self.received.append((self.world.clock.t, data, client_addr))
-            reply(R.watercare_response(self.wc_mode))
-            return
-        return super().receive(data, client_addr)
+            return [framed(R.watercare_response(self.wc_mode))]
+        return None
+
+
+class ModelSpa(vworld.SimPeer):
+    """E3 adapter: the model as a peer of the virtual network"""
+
+    def __init__(self, world, sim, pair, addr):
+        super().__init__(world, sim, addr)
+        self.model = SpaModel(sim, pair)
+        self.model.now = lambda: world.clock.t
+
+    commands = property(lambda self: self.model.commands)
+    block = property(lambda self: self.model.block)
+    wc_mode = property(lambda self: self.model.wc_mode)
+
+    def poke(self, what, k):
+        out = self.model.poke(what, k)
+        if out:
+            self.world.deliver_from_spa(self, out)
+
+    def receive(self, data, client_addr):
+        out = self.model.handle(data, client_addr)
+        if out is None:
+            return super().receive(data, client_addr)
+        self.received.append((self.world.clock.t, data, client_addr))
+        self.world.deliver_from_spa(self, out)
 
 
 def _rewire(sim, pair, wire):
@@ -216,21 +241,153 @@ def _rewire(sim, pair, wire):
 # ------------------------------------------------------------------ the case
 
 
-def run_case(case) -> Result:
-    res = Result()
-    snaps = _snapshots()
-    try:
-        snap = snaps[int(case["snapshot"]) % len(snaps)]
-        history = list(case["history"])
-    except (KeyError, TypeError, ValueError):
-        raise InvalidCase(case)
-    pair = packs.pair(snap.packtype.lower(), snap.config_version, snap.log_version)
+def plan_command(res, info, fac, spa, pair, model, cmd, before, wc_calls):
+    """what one facade command is expected to put on the wire and to read back afterwards.
+    Returns None when the device does not exist in this configuration, else a dict with
+    obj / method / args (the awaitable twin is 'async_' + method where it exists), what, exp, after."""
+    kind = cmd[0]
+    if kind == "pump":
+        pumps = fac.pumps
+        if not pumps:
+            return None
+        p = pumps[int(cmd[1]) % len(pumps)]
+        modes = list(p.modes)
+        mode = modes[int(cmd[2]) % len(modes)]
+        ud = next(u for u in pair.log_inst.user_demand_keys if u.upper() == ("Ud" + p.key).upper())
+        it = pair.items[ud]
+        pos, w, word = it.encode_raw(before, it.labels.index(mode))
+        if it.mask is not None and (it.field(before) & ~it.field_mask):
+            info["neighbour"] = True
+        what = f"{p.key}.set_mode({mode!r})"
+
+        def after():
+            if spa.accessors[ud].value != mode:
+                res.fail("C13|readback|pump-demand", f"{what}: client reads {ud}={spa.accessors[ud].value!r} after the echo")
+            want = {"LO": "LOW", "HI": "HIGH"}.get(mode, mode)
+            st_labels = pair.items[p.key].labels if p.key in pair.items else None
+            if st_labels and want in st_labels and p.mode != want:
+                res.fail("C13|readback|pump-mode", f"{what}: pump.mode reads {p.mode!r}, the spa's state item says {want!r}")
+        return {"obj": p, "method": "set_mode", "args": (mode,), "what": what, "kind": kind,
+                "exp": {"kind": "set", "pos": pos, "data": int(word).to_bytes(w, "big")}, "after": after}
+    if kind == "switch":
+        dev = {"blower": (fac.blowers[0] if fac.blowers else None), "light": (fac.lights[0] if fac.lights else None),
+               "eco": fac.eco_mode}[cmd[1]]
+        if dev is None:
+            return None
+        on = bool(cmd[2])
+        was_on = bool(dev.is_on)
+        what = f"{dev.key}.turn_{'on' if on else 'off'}() while {'on' if was_on else 'off'}"
+        if was_on == on:
+            exp = "none"
+            info["idem"] = True
+        elif cmd[1] == "eco":
+            it = pair.items["EconActive"]
+            pos, w, word = it.encode_raw(before, 1 if on else 0)
+            exp = {"kind": "set", "pos": pos, "data": int(word).to_bytes(w, "big")}
+            if it.mask is not None and (it.field(before) & ~it.field_mask):
+                info["neighbour"] = True
+        else:
+            exp = {"kind": "key", "key": KEY_BLOWER if cmd[1] == "blower" else KEY_LIGHT}
+
+        def after():
+            if bool(dev.is_on) != on:
+                res.fail(f"C13|readback|switch|{dev.key}", f"{what}: is_on reads {dev.is_on!r} after the echo")
+        return {"obj": dev, "method": "turn_on" if on else "turn_off", "args": (), "what": what, "kind": kind, "sub": cmd[1], "exp": exp, "after": after}
+    if kind == "temp":
+        wh = fac.water_heater
+        if "SetpointG" not in pair.items or "TempUnits" not in pair.items:
+            return None
+        unit = pair.unit(before)
+        lo, hi = (15, 40) if unit == "C" else (59, 104)
+        t = lo + (int(cmd[1]) % (hi - lo + 5)) + int(cmd[2]) / 10.0
+        what = f"heater.set_target_temperature({t}) in {unit}"
+
+        def after():
+            step = 1 / 18 if unit == "C" else 0.1
+            if abs(wh.target_temperature - t) > step + 1e-9:
+                res.fail("C13|readback|temperature", f"{what}: target_temperature reads {wh.target_temperature}")
+        return {"obj": wh, "method": "set_target_temperature", "args": (t,), "what": what, "kind": kind,
+                "exp": {"kind": "set", "pos": pair.items["SetpointG"].pos, "len": 2}, "after": after}
+    if kind == "unit":
+        wh = fac.water_heater
+        if "TempUnits" not in pair.items:
+            return None
+        it = pair.items["TempUnits"]
+        want = "F" if cmd[1] in ("°F", "f", "F") else "C"
+        pos, w, word = it.encode_raw(before, it.labels.index(want))
+        what = f"heater.set_temperature_unit({cmd[1]!r})"
+
+        def after():
+            sym = "°C" if want == "C" else "°F"
+            if wh.temperature_unit != sym:
+                res.fail("C13|readback|unit", f"{what}: temperature_unit reads {wh.temperature_unit!r}")
+        return {"obj": wh, "method": "set_temperature_unit", "args": (cmd[1],), "what": what, "kind": kind,
+                "exp": {"kind": "set", "pos": pos, "data": int(word).to_bytes(w, "big")}, "after": after}
+    if kind == "wc":
+        wc = fac.water_care
+        mode = int(cmd[1]) % 5
+        arg = wc.modes[mode] if cmd[2] else mode
+        what = f"water_care.set_mode({arg!r})"
+        old = wc.mode
+        n_calls = len(wc_calls) if wc_calls is not None else 0
+
+        def after():
+            if wc.mode != mode:
+                res.fail("C13|readback|watercare", f"{what}: mode reads {wc.mode!r}")
+            if model.wc_mode != mode:
+                res.fail("C13|effect|watercare", f"{what}: the spa's watercare mode is {model.wc_mode}")
+            if wc_calls is not None and old != mode and len(wc_calls) != n_calls + 1:
+                res.fail("C13|notify|watercare", f"{what}: {len(wc_calls) - n_calls} observer notifications for a mode change {old}->{mode}")
+        return {"obj": wc, "method": "set_mode", "args": (arg,), "what": what, "kind": kind, "exp": {"kind": "wc", "mode": mode}, "after": after,
+                "notify": True}
+    raise InvalidCase(cmd)
+
+
+def judge(res, plan, got, before, sim_id, client_id, pack_type, snap, stack):
+    """the command datagrams that reached the model vs the plan"""
+    what, exp, kind = plan["what"], plan["exp"], plan["kind"]
+    if exp == "none":
+        if got:
+            res.fail(f"C13|not-idempotent|{plan.get('sub')}", f"[{stack}] {what} sent {[g['raw'] for g in got]}")
+        return
+    if len(got) != 1:
+        res.fail(f"C13|command-count|{kind}|{len(got)}", f"[{stack}] {what} put {len(got)} command datagrams on the wire: {[g['raw'] for g in got]}")
+    for g in got[:1]:
+        if g["kind"] == "malformed":
+            res.fail(f"C13|malformed|{kind}", f"[{stack}] {what} sent a malformed command {g['raw']!r}")
+            continue
+        if g["dst"] != sim_id or g["src"] != client_id:
+            res.fail("C13|addressing", f"[{stack}] {what}: command framed {g['src']!r} -> {g['dst']!r}")
+        if exp["kind"] == "wc":
+            if g["verb"] != "SETWC" or g.get("mode") != exp["mode"]:
+                res.fail("C13|watercare-command", f"[{stack}] {what} sent {g['raw']!r}")
+            elif not (1 <= g["seq"] <= 191):
+                res.fail("C13|sequence|SETWC", f"[{stack}] {what}: SETWC carries sequence {g['seq']}")
+            continue
+        if g["verb"] != "SPACK" or g["kind"] != exp["kind"]:
+            res.fail(f"C13|wrong-command|{kind}", f"[{stack}] {what} sent {g['raw']!r}, expected a {exp['kind']} command")
+            continue
+        if not (192 <= g["seq"] <= 255):
+            res.fail("C13|sequence|SPACK", f"[{stack}] {what}: SPACK carries sequence {g['seq']} (command range is 192..255)")
+        if g["pack_type"] != pack_type:
+            res.fail("C13|pack-type", f"[{stack}] {what}: SPACK carries pack type {g['pack_type']}, the connected pack is type {pack_type}")
+        if exp["kind"] == "key":
+            if g["key"] != exp["key"]:
+                res.fail("C13|keycode", f"[{stack}] {what}: key press {g['key']}, expected {exp['key']}")
+        else:
+            if (g["cfg"], g["log"]) != (snap.config_version, snap.log_version):
+                res.fail("C13|versions", f"[{stack}] {what}: set-value carries cfg/log {g['cfg']}/{g['log']}, connected {snap.config_version}/{snap.log_version}")
+            if g["pos"] != exp["pos"] or ("data" in exp and g["data"] != exp["data"]) or ("len" in exp and len(g["data"]) != exp["len"]):
+                res.fail(f"C13|write|{kind}", f"[{stack}] {what}: wrote {g['data'].hex()} at {g['pos']}, the reference encoder says "
+                         f"{exp.get('data', b'').hex() or '<2 bytes>'} at {exp['pos']} (field before: {before[exp['pos']:exp['pos'] + 2].hex()})")
+
+
+def _run_async(res, case, snap, pair, history, info):
     W = vworld.World()
     sim = vworld.make_simulator(snap)
     _rewire(sim, pair, case.get("wire", []))
     peer = ModelSpa(W, sim, pair, ("10.0.0.50", 10022))
     W.peers.append(peer)
-    info = {"idem": False, "neighbour": False, "commands": 0, "skipped": 0}
 
     async def main(W):
         from geckolib import GeckoAsyncFacade
@@ -263,184 +420,130 @@ def run_case(case) -> Result:
                     clients.keep_ping_fresh(spa, W)
                 if spa.struct.status_block != peer.block:
                     raise HarnessError("client block differs from the model before a command")
-                kind = cmd[0]
                 before = peer.block
                 n0 = len(peer.commands)
-                exp = None          # expected datagram description or "none"
-                after_check = None  # callable run after the echo
-                what = None
+                plan = plan_command(res, info, fac, spa, pair, peer.model, cmd, before, wc_calls)
+                if plan is None:
+                    info["skipped"] += 1
+                    continue
+                use_async = bool(cmd[3]) or plan["kind"] in ("unit", "wc")   # the blocking unit/watercare twins need the blocking spa
+                plan["what"] = ("async " if use_async else "") + plan["what"]
                 try:
-                    if kind == "pump":
-                        pumps = fac.pumps
-                        if not pumps:
-                            info["skipped"] += 1
-                            continue
-                        p = pumps[int(cmd[1]) % len(pumps)]
-                        modes = list(p.modes)
-                        mode = modes[int(cmd[2]) % len(modes)]
-                        ud = next(u for u in pair.log_inst.user_demand_keys if u.upper() == ("Ud" + p.key).upper())
-                        it = pair.items[ud]
-                        idx = it.labels.index(mode)
-                        pos, w, word = it.encode_raw(before, idx)
-                        exp = {"kind": "set", "pos": pos, "data": int(word).to_bytes(w, "big")}
-                        cur_field = it.field(before)
-                        if it.mask is not None and (cur_field & ~it.field_mask):
-                            info["neighbour"] = True
-                        what = f"{p.key}.{'async_set_mode' if cmd[3] else 'set_mode'}({mode!r})"
-                        if cmd[3]:
-                            await p.async_set_mode(mode)
-                        else:
-                            p.set_mode(mode)
-
-                        def after_check(p=p, ud=ud, mode=mode):
-                            if spa.accessors[ud].value != mode:
-                                res.fail("C13|readback|pump-demand", f"{what}: client reads {ud}={spa.accessors[ud].value!r} after the echo")
-                            want = {"LO": "LOW", "HI": "HIGH"}.get(mode, mode)
-                            st_labels = pair.items[p.key].labels if p.key in pair.items else None
-                            if st_labels and want in st_labels and p.mode != want:
-                                res.fail("C13|readback|pump-mode", f"{what}: pump.mode reads {p.mode!r}, the spa's state item says {want!r}")
-                    elif kind == "switch":
-                        dev = {"blower": (fac.blowers[0] if fac.blowers else None), "light": (fac.lights[0] if fac.lights else None),
-                               "eco": fac.eco_mode}[cmd[1]]
-                        if dev is None:
-                            info["skipped"] += 1
-                            continue
-                        on = bool(cmd[2])
-                        was_on = bool(dev.is_on)
-                        what = f"{dev.key}.{'async_' if cmd[3] else ''}turn_{'on' if on else 'off'}() while {'on' if was_on else 'off'}"
-                        if was_on == on:
-                            exp = "none"
-                            info["idem"] = True
-                        elif cmd[1] == "eco":
-                            it = pair.items["EconActive"]
-                            pos, w, word = it.encode_raw(before, 1 if on else 0)
-                            exp = {"kind": "set", "pos": pos, "data": int(word).to_bytes(w, "big")}
-                            if it.mask is not None and (it.field(before) & ~it.field_mask):
-                                info["neighbour"] = True
-                        else:
-                            exp = {"kind": "key", "key": KEY_BLOWER if cmd[1] == "blower" else KEY_LIGHT}
-                        fn = getattr(dev, ("async_" if cmd[3] else "") + ("turn_on" if on else "turn_off"))
-                        if cmd[3]:
-                            await fn()
-                        else:
-                            fn()
-
-                        def after_check(dev=dev, on=on):
-                            if bool(dev.is_on) != on:
-                                res.fail(f"C13|readback|switch|{dev.key}", f"{what}: is_on reads {dev.is_on!r} after the echo")
-                    elif kind == "temp":
-                        wh = fac.water_heater
-                        if "SetpointG" not in pair.items or "TempUnits" not in pair.items:
-                            info["skipped"] += 1
-                            continue
-                        unit = pair.unit(before)
-                        lo, hi = (15, 40) if unit == "C" else (59, 104)
-                        t = lo + (int(cmd[1]) % (hi - lo + 5)) + int(cmd[2]) / 10.0
-                        it = pair.items["SetpointG"]
-                        exp = {"kind": "set", "pos": it.pos, "len": 2}
-                        what = f"heater.{'async_' if cmd[3] else ''}set_target_temperature({t}) in {unit}"
-                        if cmd[3]:
-                            await wh.async_set_target_temperature(t)
-                        else:
-                            wh.set_target_temperature(t)
-
-                        def after_check(wh=wh, t=t, unit=unit):
-                            step = 1 / 18 if unit == "C" else 0.1
-                            if abs(wh.target_temperature - t) > step + 1e-9:
-                                res.fail("C13|readback|temperature", f"{what}: target_temperature reads {wh.target_temperature}")
-                    elif kind == "unit":
-                        wh = fac.water_heater
-                        if "TempUnits" not in pair.items:
-                            info["skipped"] += 1
-                            continue
-                        it = pair.items["TempUnits"]
-                        want = "F" if cmd[1] in ("°F", "f", "F") else "C"
-                        pos, w, word = it.encode_raw(before, it.labels.index(want))
-                        exp = {"kind": "set", "pos": pos, "data": int(word).to_bytes(w, "big")}
-                        what = f"heater.async_set_temperature_unit({cmd[1]!r})"
-                        await wh.async_set_temperature_unit(cmd[1])
-
-                        def after_check(wh=wh, want=want):
-                            sym = "°C" if want == "C" else "°F"
-                            if wh.temperature_unit != sym:
-                                res.fail("C13|readback|unit", f"{what}: temperature_unit reads {wh.temperature_unit!r}")
-                    elif kind == "wc":
-                        wc = fac.water_care
-                        mode = int(cmd[1]) % 5
-                        arg = wc.modes[mode] if cmd[2] else mode
-                        exp = {"kind": "wc", "mode": mode}
-                        what = f"water_care.async_set_mode({arg!r})"
-                        old = wc.mode
-                        n_calls = len(wc_calls)
-                        await wc.async_set_mode(arg)
-
-                        def after_check(wc=wc, mode=mode, old=old, n_calls=n_calls):
-                            if wc.mode != mode:
-                                res.fail("C13|readback|watercare", f"{what}: mode reads {wc.mode!r}")
-                            if peer.wc_mode != mode:
-                                res.fail("C13|effect|watercare", f"{what}: the spa's watercare mode is {peer.wc_mode}")
-                            if old != mode and len(wc_calls) != n_calls + 1:
-                                res.fail("C13|notify|watercare", f"{what}: {len(wc_calls) - n_calls} observer notifications for a mode change {old}->{mode}")
+                    if use_async:
+                        await getattr(plan["obj"], "async_" + plan["method"])(*plan["args"])
                     else:
-                        raise InvalidCase(cmd)
-                except InvalidCase:
-                    raise
+                        getattr(plan["obj"], plan["method"])(*plan["args"])
                 except Exception as exc:  # noqa
                     is_lib, site = classify_exception(exc)
                     if not is_lib:
                         raise
-                    res.fail(f"C13|command-raises|{kind}|{site}", f"{what}: {type(exc).__name__}: {exc}")
+                    res.fail(f"C13|command-raises|{plan['kind']}|{site}", f"{plan['what']}: {type(exc).__name__}: {exc}")
                     continue
                 info["commands"] += 1
                 await settle()
-                got = peer.commands[n0:]
-                # ---- exactly the intended datagram(s)
-                if exp == "none":
-                    if got:
-                        res.fail(f"C13|not-idempotent|{cmd[1]}", f"{what} sent {[g['raw'] for g in got]}")
-                else:
-                    if len(got) != 1:
-                        res.fail(f"C13|command-count|{kind}|{len(got)}", f"{what} put {len(got)} command datagrams on the wire: {[g['raw'] for g in got]}")
-                    for g in got[:1]:
-                        if g["kind"] == "malformed":
-                            res.fail(f"C13|malformed|{kind}", f"{what} sent a malformed command {g['raw']!r}")
-                            continue
-                        if g["dst"] != sim.vp_identifier or g["src"] != clients.CLIENT_ID:
-                            res.fail("C13|addressing", f"{what}: command framed {g['src']!r} -> {g['dst']!r}")
-                        if exp["kind"] == "wc":
-                            if g["verb"] != "SETWC" or g.get("mode") != exp["mode"]:
-                                res.fail("C13|watercare-command", f"{what} sent {g['raw']!r}")
-                            elif not (1 <= g["seq"] <= 191):
-                                res.fail("C13|sequence|SETWC", f"{what}: SETWC carries sequence {g['seq']}")
-                            continue
-                        if g["verb"] != "SPACK" or g["kind"] != exp["kind"]:
-                            res.fail(f"C13|wrong-command|{kind}", f"{what} sent {g['raw']!r}, expected a {exp['kind']} command")
-                            continue
-                        if not (192 <= g["seq"] <= 255):
-                            res.fail("C13|sequence|SPACK", f"{what}: SPACK carries sequence {g['seq']} (command range is 192..255)")
-                        if g["pack_type"] != pack_type:
-                            res.fail("C13|pack-type", f"{what}: SPACK carries pack type {g['pack_type']}, the connected pack is type {pack_type}")
-                        if exp["kind"] == "key":
-                            if g["key"] != exp["key"]:
-                                res.fail("C13|keycode", f"{what}: key press {g['key']}, expected {exp['key']}")
-                        else:
-                            if (g["cfg"], g["log"]) != (snap.config_version, snap.log_version):
-                                res.fail("C13|versions", f"{what}: set-value carries cfg/log {g['cfg']}/{g['log']}, connected {snap.config_version}/{snap.log_version}")
-                            if g["pos"] != exp["pos"] or ("data" in exp and g["data"] != exp["data"]) or ("len" in exp and len(g["data"]) != exp["len"]):
-                                res.fail(f"C13|write|{kind}", f"{what}: wrote {g['data'].hex()} at {g['pos']}, the reference encoder says "
-                                         f"{exp.get('data', b'').hex() or '<2 bytes>'} at {exp['pos']} (field before: {before[exp['pos']:exp['pos'] + 2].hex()})")
+                judge(res, plan, peer.commands[n0:], before, sim.vp_identifier, clients.CLIENT_ID, pack_type, snap, "async")
                 if spa.struct.status_block != peer.block:
                     bad = [i for i in range(1024) if spa.struct.status_block[i] != peer.block[i]][:5]
-                    res.fail("C13|client-block-differs", f"after {what} and the echo the client block differs from the spa's at {bad}")
-                elif after_check is not None:
-                    after_check()
+                    res.fail("C13|client-block-differs", f"after {plan['what']} and the echo the client block differs from the spa's at {bad}")
+                else:
+                    plan["after"]()
         finally:
             await spa.disconnect()
             await clients.shutdown(tm)
 
     W.run(main)
+
+
+def _run_sync(res, case, snap, pair, history, info):
+    """the blocking stack: GeckoFacade on a GeckoSpa stepped on engine E4, same model spa"""
+    from geckolib import GeckoFacade
+    from .. import stepped
+
+    sim = vworld.make_simulator(snap)
+    _rewire(sim, pair, case.get("wire", []))
+    model = SpaModel(sim, pair)
+    eng = stepped.Engine()
+    model.now = lambda: eng.vt.t
+    fallback = stepped.sim_peer(sim)
+
+    def peer(data, client_addr):
+        out = model.handle(data, client_addr)
+        if out is None:
+            return fallback(data, client_addr)
+        return out
+
+    with eng.patched():
+        spa = stepped.make_threaded_spa(eng, sim)
+        eng.peer = peer
+        fac = GeckoFacade(spa)
+        spa.start_connect()
+        if not stepped.run_until(eng, lambda: spa._is_connected and not eng.inbox and not spa._send_handlers, max_iterations=40000):
+            raise HarnessError("blocking handshake did not complete")
+        if fac.water_heater is None:
+            raise HarnessError("blocking facade was not built on connect")
+        pack_type = spa.new_pack_class.type
+
+        def settle():
+            from geckolib.driver import GeckoPackCommandProtocolHandler
+
+            def quiet():
+                if eng.inbox or spa._send_handlers:
+                    return False
+                return not any(isinstance(h, GeckoPackCommandProtocolHandler) for h in spa._receive_handlers)
+            if not stepped.run_until(eng, quiet, max_iterations=4000):
+                raise HarnessError("engine did not settle after a command")
+            stepped.run_until(eng, lambda: eng.iterations >= 6, max_iterations=6)   # let a trailing STATQ / echo pass
+
+        for poke, cmd in history:
+            if poke is not None:
+                for dg, dest in model.poke(str(poke[0]), int(poke[1])):
+                    eng.deliver(dg, stepped.SPA_ADDR)
+                settle()
+            if spa.struct.status_block != model.block:
+                raise HarnessError("blocking client block differs from the model before a command")
+            before = model.block
+            n0 = len(model.commands)
+            plan = plan_command(res, info, fac, spa, pair, model, cmd, before, None)
+            if plan is None:
+                info["skipped"] += 1
+                continue
+            try:
+                getattr(plan["obj"], plan["method"])(*plan["args"])
+            except Exception as exc:  # noqa
+                is_lib, site = classify_exception(exc)
+                if not is_lib:
+                    raise
+                res.fail(f"C13|command-raises|{plan['kind']}|{site}", f"[blocking] {plan['what']}: {type(exc).__name__}: {exc}")
+                continue
+            info["commands"] += 1
+            settle()
+            judge(res, plan, model.commands[n0:], before, sim.vp_identifier, stepped.CLIENT_ID, pack_type, snap, "blocking")
+            if spa.struct.status_block != model.block:
+                bad = [i for i in range(1024) if spa.struct.status_block[i] != model.block[i]][:5]
+                res.fail("C13|client-block-differs", f"[blocking] after {plan['what']} and the echo the client block differs from the spa's at {bad}")
+            else:
+                plan["after"]()
+
+
+def run_case(case) -> Result:
+    res = Result()
+    snaps = _snapshots()
+    try:
+        snap = snaps[int(case["snapshot"]) % len(snaps)]
+        history = list(case["history"])
+    except (KeyError, TypeError, ValueError):
+        raise InvalidCase(case)
+    pair = packs.pair(snap.packtype.lower(), snap.config_version, snap.log_version)
+    info = {"idem": False, "neighbour": False, "commands": 0, "skipped": 0}
+    stack = case.get("stack", "async")
+    if stack == "async":
+        _run_async(res, case, snap, pair, history, info)
+    elif stack == "blocking":
+        _run_sync(res, case, snap, pair, history, info)
+    else:
+        raise InvalidCase(case)
     res.nontrivial = bool(info["idem"] or info["neighbour"])
-    res.label(f"commands-{min(info['commands'], 5)}")
+    res.label(f"stack-{stack}", f"commands-{min(info['commands'], 5)}")
     if info["idem"]:
         res.label("already-in-requested-state")
     if info["neighbour"]:
